@@ -2,10 +2,11 @@
 
 design layer   spec/modeldb/ModelDB.tla: one action per file-system operation of transaction / store_model /
                store_modelfit_results / commit / store_key / store_annotation / snapshot / log, plus Crash and
-               Restart.  TLC checks exhaustively (a) the invariants the protocol as written satisfies and
-               (b) - in separate runs - the property layer over the design: the counterexamples it finds
-               are *design-level findings* (they never decide the exit code); each is re-enacted on the real
-               code by the driver.
+               Restart, for one or two processes.  The default describes the code as it is now (after the repairs
+               C16-F1, -F4, -F5); TLC checks exhaustively (a) the invariants it satisfies - including (A), (I),
+               (D) for keys never interrupted themselves, annotations, log without torn line - and (b), in
+               separate runs, the rest of the property layer: those counterexamples are *design-level findings*
+               (they never decide the exit code); each is re-enacted on the real code by the driver.
 property layer spec/modeldb/ModelDBAbs.tla, used by ModelDB.tla and by the trace validator ModelDBTrace.tla.
 spec -> code   TLC emits the workloads (<= MaxOps operations over m1,m2 | m3) with the step sequence of every
                operation; the driver enumerates the REAL crash points of each selected workload.
@@ -13,6 +14,8 @@ code -> spec   crash injection: the workload runs in a forked child that dies (o
                file-system operation k (+ torn variants of the file closed last); the parent re-opens the
                tree with fresh objects, retrieves every key and name, stores the other models (also the one
                sharing the dataset), reads log and annotations; TLC validates every observation trace.
+               thorough: a second writer process runs while the first one is killed; two-process design
+               counterexamples are re-enacted by holding one process at the step TLC names.
 drift          audit-hook sequence of each operation vs the step sequence of ModelDB.tla (reported only).
 fidelity       names / descriptions / log messages over a TLC-enumerated alphabet of troublesome tokens.
 """
@@ -27,31 +30,38 @@ import time
 
 from . import core
 from . import c16_real as R
+from .c16_real import label_events  # noqa: F401  (re-exported: replay / tools)
 
 SPEC = core.SPEC / "modeldb"
 PROP = "C16"
 
 TIERS = {
-    #           design run (no hist)            emit run            props runs             crash budget  fidelity
     "quick": dict(design=dict(MaxOps=3, MaxCrashes=1, Ops="OpsQuick"), emit=dict(MaxOps=3, Ops="OpsQuick"),
                   props=dict(MaxOps=3, MaxCrashes=1, Ops="OpsQuick"), budget=150, sem_dedupe=True,
-                  text_len=2, text_budget=36, extra_workloads=0),
+                  text_len=2, text_budget=36, extra_workloads=0, conc=0),
     "thorough": dict(design=dict(MaxOps=4, MaxCrashes=2, Ops="OpsQuick"), emit=dict(MaxOps=3, Ops="OpsFull"),
                      props=dict(MaxOps=3, MaxCrashes=1, Ops="OpsQuick"), props2=dict(MaxOps=3, MaxCrashes=2, Ops="OpsQuick"),
-                     budget=1200, sem_dedupe=False,
-                     text_len=3, text_budget=300, extra_workloads=40, fixed=dict(MaxOps=3, MaxCrashes=2, Ops="OpsQuick")),
+                     budget=1200, sem_dedupe=False, text_len=3, text_budget=300, extra_workloads=40,
+                     legacy=dict(MaxOps=3, MaxCrashes=1, Ops="OpsQuick"),
+                     two=dict(MaxOps=2, MaxCrashes=1, Ops="OpsTwo"), conc=60),
 }
-# invariants of ModelDB.tla expected to FAIL on the protocol as written (design-level findings), property letter
-PROP_INVARIANTS = [("InvI", "I"), ("InvIOther", "I"), ("InvD", "D"), ("InvDOther", "D"), ("InvA", "A"),
-                   ("InvLog", "L"), ("InvAnn", "L"), ("InvName", "D"), ("InvNameNoCrash", "D")]
-HOLDING = ["TypeOK", "PendingGuards", "DatainfoLast", "LocksScoped", "CleanStoreWorks"]
-# the protocol with the proposed repairs (proposed_fixes/C16-F1, -F4, -F5): these hold
-FIXED_HOLDING = ["TypeOK", "PendingGuards", "LocksScoped", "LogHeaderOK", "InvLogNoTorn", "InvI", "InvDOther", "InvA", "InvAnn"]
-ACTIONS = ["InitDirs", "OpenLogHeader", "WriteLogHeader", "InitCommon", "MkKeyDirs", "TouchLock", "LockEx", "TouchPending",
+# invariants of ModelDB.tla the code as it is now satisfies (asserted: a violation is a machinery error = the spec is wrong)
+HOLDING = ["TypeOK", "PendingGuards", "DatainfoLast", "IndexImpliesComplete", "LocksScoped", "LogHeaderOK",
+           "InvI", "InvDOther", "InvA", "InvAnn", "InvLogNoTorn"]
+# ... expected to FAIL (design-level findings F3, F7, F6), with their property letter
+PROP_INVARIANTS = [("InvD", "D"), ("InvName", "D"), ("InvNameNoCrash", "D"), ("InvLog", "L")]
+# for the record: the protocol before the repairs (Legacy <- LegacyAll) - TLC still finds F1, F2, F4, F5 there
+LEGACY_HOLDING = ["TypeOK", "PendingGuards", "DatainfoLast", "LocksScoped", "CleanStoreWorks"]
+LEGACY_INVARIANTS = [("InvI", "I"), ("InvIOther", "I"), ("InvDOther", "D"), ("InvAnn", "L"), ("InvLogNoTorn", "L")]
+# two processes
+TWO_HOLDING = ["TypeOK", "PendingGuards", "DatainfoLast", "IndexImpliesComplete", "LocksScoped", "Exclusion",
+               "InvDOther", "InvA", "InvAnn"]
+TWO_INVARIANTS = [("InvI", "I"), ("InvLogNoTorn", "L")]
+ACTIONS = ["InitDirs", "OpenLogTmp", "CloseLogTmp", "RenameLog", "InitCommon", "MkKeyDirs", "TouchLock", "LockEx", "TouchPending",
            "ListHashDir", "ReadDatainfo", "MkHashDir", "ScanDatasetNumbers", "TouchIndex", "OpenCsv", "CloseCsv",
            "OpenDatainfo", "CloseDatainfo", "MkModelDir", "OpenModel", "CloseModel", "MkMetaDir", "OpenResults",
-           "CloseResults", "UnlinkPending", "Unlock", "SymlinkIfAbsent", "AnnTouchLock", "AnnLockEx", "AnnReadAll",
-           "AnnTruncate", "AnnWrite", "RMkKeyDirs", "RTouchLock", "LockSh", "ReadEntry", "LogTouchLock", "LogLockEx",
+           "CloseResults", "UnlinkPending", "Unlock", "StatLink", "Symlink", "AnnTouchLock", "AnnLockEx", "AnnReadAll",
+           "AnnOpenTmp", "AnnCloseTmp", "AnnRename", "RMkKeyDirs", "RTouchLock", "LockSh", "ReadEntry", "LogTouchLock", "LogLockEx",
            "LogOpenAppend", "LogWrite", "Begin", "Crash", "Restart"]
 
 
@@ -144,22 +154,47 @@ def _run_prop(cfg, dump, workers, cfg2=None):
     return res, scen
 
 
+def _fate(prev, st, p):
+    """what became of the file process p had open when it died (two consecutive states of a counterexample):
+    kill = nothing of the pending write arrived, thalf = a part, complete = all of it"""
+    v, o, fs = prev["vol"][p], prev["cur"][p], st["fs"]
+    f = v["openf"]
+    if f == "log":
+        if len(fs["loglines"]) == len(prev["fs"]["loglines"]):
+            return "kill"
+        return "thalf" if fs["loglines"][-1] == "TORN" else "complete"
+    val = {"csv": lambda: fs["csv"][v["n"] - 1], "dinfo": lambda: fs["dinfo"][v["n"] - 1], "model": lambda: fs["mfile"][o["m"]]["st"],
+           "results": lambda: fs["rfile"][o["m"]], "loghdr": lambda: fs["loghdr"]}.get(f)
+    if val is None:
+        return "kill"
+    x = val()
+    return "thalf" if x == "torn" else "kill" if x == "empty" else "complete"
+
+
 def _scenario(dump):
-    """counterexample of TLC (-dumpTrace json) -> operations, crash point, follow-up operations"""
+    """counterexample of TLC (-dumpTrace json) -> per process: operations, crashes; global order of steps"""
     states = [s[1] if isinstance(s, list) else s for s in dump["counterexample"]["state"]]
-    ops, crash, prev, ncr = [], None, None, 0
+    nproc = len(states[0]["cur"])
+    segs = {p: [[]] for p in range(nproc)}   # per process: list of segments (operations begun until a crash)
+    crashes = {p: [] for p in range(nproc)}  # per process: one record per segment that ended in a crash
+    order = []                               # global sequence of (process, label, operation index in its segment)
+    prev = None
     for st in states:
-        cur = st["cur"]
         if prev is not None:
-            pcur = prev["cur"]
-            if pcur.get("op") == "none" and cur.get("op") not in ("none", "Open"):
-                ops.append(_op_from_spec(cur))
-            if prev["proc"] == "up" and st["proc"] == "down":
-                ncr += 1
-                crash = {"op_index": len(ops), "before": prev["pc"], "in": pcur.get("op")}
+            for p in range(nproc):
+                pcur, cur = prev["cur"][p], st["cur"][p]
+                if pcur.get("op") == "none" and cur.get("op") not in ("none", "Open"):
+                    segs[p][-1].append(_op_from_spec(cur))
+                if prev["proc"][p] == "up" and st["proc"][p] == "down":
+                    crashes[p].append({"op_index": len(segs[p][-1]) if pcur.get("op") != "Open" else 0, "before": prev["pc"][p],
+                                       "in": pcur.get("op"), "fate": _fate(prev, st, p)})
+                    segs[p].append([])
+                elif prev["pc"][p] != st["pc"][p] and prev["proc"][p] == "up" and pcur.get("op") != "none":
+                    order.append((p, prev["pc"][p], len(segs[p][-1]) if pcur.get("op") != "Open" else 0))
         prev = st
     last = states[-1]
-    return {"ops": ops, "crash": crash, "crashes": ncr, "S": last["S"], "viol": last["viol"], "length": len(states)}
+    return {"nproc": nproc, "segs": segs, "crashes": crashes, "order": order, "S": last["S"], "viol": last["viol"],
+            "length": len(states), "ncrash": sum(len(c) for c in crashes.values())}
 
 
 def _op_from_spec(o):
@@ -172,78 +207,7 @@ def _op_from_spec(o):
     raise core.MachineryError(f"unknown spec operation {o}")
 
 
-# ----------------------------------------------------------------------------- design-layer labels of real events
-
-
-def label_events(events, opkind):
-    """map audited events of ONE operation to the step names of ModelDB.tla (conformance: drift only)"""
-    out = []
-    seen_pending = False
-    for kind, rel, detail in events:
-        base = os.path.basename(rel)
-        parent = os.path.basename(os.path.dirname(rel))
-        lab = "?" + kind + ":" + base
-        if "/.modeldb/" not in rel + "/":
-            if base in ("", "ctx", "subcontexts", "models") and kind == "os.mkdir":
-                lab = "InitDirs"
-            elif parent == "models" and kind == "os.symlink":
-                lab = "SymlinkIfAbsent"
-            elif base == "annotations":
-                if kind in ("os.utime",) or (kind == "open" and str(detail).startswith("fd:")):
-                    lab = "InitDirs"
-                elif kind == "open":
-                    lab = "AnnReadAll" if detail == "r" else "AnnTruncate"
-                elif kind == "close":
-                    lab = "AnnWrite"
-            elif base == "annotations.lock":
-                lab = "AnnLockEx" if detail == "fd:rw" else "AnnTouchLock"
-            elif base == "log.lock":
-                lab = "LogLockEx" if detail == "fd:rw" else "LogTouchLock"
-            elif base == "log.csv":
-                if kind == "open":
-                    lab = {"w": "OpenLogHeader", "a": "LogOpenAppend", "r": "ReadLog"}.get(detail, lab)
-                elif kind == "close":
-                    lab = "WriteLogHeader" if opkind == "Open" else "LogWrite"
-            elif base == "common_options":
-                lab = "InitCommon"
-        else:
-            if base == ".modeldb":
-                lab = "InitDirs"
-            elif base == ".lock":
-                if detail == "fd:rw":
-                    lab = "LockSh" if opkind in ("Retrieve", "RetrieveName", "ResolveName") else "LockEx"
-                else:
-                    lab = "RTouchLock" if opkind in ("Retrieve", "RetrieveName", "ResolveName") else "TouchLock"
-            elif base == "PENDING":
-                lab = "UnlinkPending" if kind == "os.remove" else "TouchPending"
-                seen_pending = True
-            elif "/.datasets" in rel:
-                if kind == "os.mkdir":
-                    lab = "MkHashDir"
-                elif kind in ("os.listdir", "os.scandir"):
-                    lab = "ScanDatasetNumbers" if base == ".datasets" else "ListHashDir"
-                elif "/.hash/" in rel:
-                    lab = "TouchIndex"
-                elif base.endswith(".csv"):
-                    lab = {"open": "OpenCsv" if detail == "w" else "ReadEntry", "close": "CloseCsv"}.get(kind, lab)
-                elif base.endswith(".datainfo"):
-                    if kind == "close":
-                        lab = "CloseDatainfo"
-                    elif detail == "w":
-                        lab = "OpenDatainfo"
-                    else:
-                        lab = "ReadDatainfo" if opkind == "Store" else "ReadEntry"
-            elif base.startswith("model."):
-                lab = {"open": "OpenModel" if detail == "w" else "ReadEntry", "close": "CloseModel"}.get(kind, lab)
-            elif base == "results.json":
-                lab = {"open": "OpenResults" if detail == "w" else "ReadEntry", "close": "CloseResults"}.get(kind, lab)
-            elif kind == "os.mkdir":
-                if not seen_pending:
-                    lab = "RMkKeyDirs" if opkind in ("Retrieve", "RetrieveName", "ResolveName") else "MkKeyDirs"
-                else:
-                    lab = "MkMetaDir" if base == ".pharmpy" else "MkModelDir"
-        out.append(lab)
-    return out
+# ----------------------------------------------------------------------------- design-layer labels of real events (c16_real.label_events)
 
 
 def _collapse(labels):
@@ -254,11 +218,14 @@ def _collapse(labels):
     return out
 
 
-SILENT = {"Unlock", "SymlinkIfAbsent", "ReadEntry"}  # steps without an audit event of their own / optional
+SILENT = {"Unlock", "StatLink", "ReadEntry"}  # steps without an audit event of their own / optional
+
+OPEN_STEPS = ("InitDirs", "OpenLogTmp", "CloseLogTmp", "RenameLog", "OpenLogHeader", "WriteLogHeader", "InitCommon")
+ANN_STEPS = ("Symlink", "AnnTouchLock", "AnnLockEx", "AnnReadAll", "AnnOpenTmp", "AnnCloseTmp", "AnnRename", "AnnTruncate", "AnnWrite")
 
 
 def _window(before, after, mid):
-    if before in ("InitDirs", "OpenLogHeader", "WriteLogHeader", "InitCommon"):
+    if before in OPEN_STEPS:
         return "Open"
     if before in ("ScanDatasetNumbers", "TouchIndex", "OpenCsv", "CloseCsv", "OpenDatainfo", "CloseDatainfo") or (before == "MkHashDir" and mid):
         return "DatasetStore"
@@ -267,35 +234,29 @@ def _window(before, after, mid):
     if before in ("ListHashDir", "ReadDatainfo"):
         return "DatasetReuse"
     if before in ("MkModelDir", "OpenModel", "CloseModel"):
+        # with the index touched last, MkModelDir follows TouchIndex / ReadDatainfo: the dataset part is complete
         return "ModelFile"
     if before in ("MkMetaDir", "OpenResults", "CloseResults"):
         return "Results"
     if before == "UnlinkPending":
         return "Commit"
-    if before in ("SymlinkIfAbsent", "AnnTouchLock", "AnnLockEx", "AnnReadAll", "AnnTruncate", "AnnWrite"):
+    if before in ANN_STEPS:
         return "NameAndAnnotation"
     if before.startswith("Log"):
         return "Log"
     if before in ("RMkKeyDirs", "RTouchLock", "LockSh", "ReadEntry"):
         return "Read"
-    if before == "End":
-        return {"CloseCsv": "DatasetStore", "CloseDatainfo": "DatasetStore", "CloseModel": "ModelFile", "CloseResults": "Results",
-                "AnnWrite": "NameAndAnnotation", "LogWrite": "Log", "InitCommon": "Open", "WriteLogHeader": "Open"}.get(after, "End")
     return "Other"
 
 
 # ----------------------------------------------------------------------------- crash injection on the real code
 
 
-def _dry(arg):
-    """run a workload without crash in a child; returns per-op audited events + outcomes"""
-    base, wid, ops = arg
-    d = os.path.join(base, f"dry{wid}")
-    os.makedirs(d)
-    code, recs = R.run_child(os.path.join(d, "root"), ops, None, os.path.join(d, "status"))
-    shutil.rmtree(d, ignore_errors=True)
+def _run_dry(root, ops, status):
+    """run Open + ops without crash in a child on `root` (fresh or surviving tree); per-op audited events + outcomes"""
+    code, recs = R.run_child(root, ops, None, status)
     if code != 0 or not recs or "events" not in recs[-1]:
-        return {"wid": wid, "error": f"dry run failed (exit {code})"}
+        return {"error": f"dry run failed (exit {code})"}
     events = recs[-1]["events"]
     bounds, evs = {}, {}
     for r in recs[:-1]:
@@ -308,8 +269,18 @@ def _dry(arg):
     for i in sorted(bounds):
         a, b = bounds[i]
         kind = "Open" if i == 0 else ops[i - 1]["e"]
-        labels += label_events(events[a:b], kind)
-    return {"wid": wid, "events": events, "labels": labels, "bounds": bounds, "evs": evs}
+        labels += R.label_events(events[a:b], kind)
+    return {"events": events, "labels": labels, "bounds": bounds, "evs": evs}
+
+
+def _dry(arg):
+    base, wid, ops = arg
+    d = os.path.join(base, f"dry{wid}")
+    os.makedirs(d)
+    out = _run_dry(os.path.join(d, "root"), ops, os.path.join(d, "status"))
+    shutil.rmtree(d, ignore_errors=True)
+    out["wid"] = wid
+    return out
 
 
 def _crash_info(ops, dry, k, variant):
@@ -343,6 +314,10 @@ def _crash_info(ops, dry, k, variant):
     return info
 
 
+NO_CRASH = {"variant": "none", "op_index": 0, "op": "none", "m": "none", "n": "none", "before": "End", "after": "End",
+            "mid": False, "window": "none", "restore": False}
+
+
 def _followups(ops, crash, rng):
     """store each model whose store was not the interrupted one: the one with the other dataset and the one sharing it"""
     crashed = crash["m"] if crash["op"] == "Store" else None
@@ -353,21 +328,169 @@ def _followups(ops, crash, rng):
     return fu, crashed
 
 
-def _inject(arg):
-    """one crash point: child dies at event k (+ torn variant); returns digest + info needed for the observation"""
-    base, cid, ops, k, variant, size0_rel, n_total = arg
+def _kill_at(root, ops, k, variant, n_total, status, events):
+    """child dies before event k (k = n_total + 1: runs to its end); torn variants truncate the file closed by event k-1"""
+    code, recs = R.run_child(root, ops, k if k <= n_total else None, status)
+    if code != (137 if k <= n_total else 0):
+        return None, f"child exited {code} instead of dying at event {k}"
+    if variant in ("t0", "thalf"):
+        prev = events[k - 2]
+        R.tear(root, prev[1], prev[2], variant)
+    return [r["ev"] for r in recs if r.get("ph") == "e"], None
+
+
+def _prepared(d, case, head, names, followups, crashed):
+    root = os.path.join(d, "root")
+    return {"dir": d, "case": case, "head": head, "names": names, "followups": followups, "crashed": crashed,
+            "digest": R.tree_digest(root), "sem": _sem_digest(root)}
+
+
+def _job_crash(arg):
+    """one crash point of a workload: child dies at event k (+ torn variant)"""
+    base, cid, ops, k, variant, dry, crash, fu, crashed = arg
     d = os.path.join(base, f"c{cid}")
     os.makedirs(d)
+    pre, err = _kill_at(os.path.join(d, "root"), ops, k, variant, len(dry["events"]), os.path.join(d, "status"), dry["events"])
+    if err:
+        return {"error": err}
+    case = {"kind": "crash", "workload": ops, "crash": crash, "followups": [o["m"] for o in fu if o["e"] == "Store"]}
+    return _prepared(d, case, _trace_events(ops, crash if variant != "none" else None, pre, []), _names_of(ops), fu, crashed)
+
+
+def _job_conc(arg):
+    """as _job_crash, but a second writer process stores another model while the first one runs and is killed"""
+    base, cid, ops, k, dry, fu, other = arg
+    d = os.path.join(base, f"cc{cid}")
+    os.makedirs(d)
     root = os.path.join(d, "root")
-    code, recs = R.run_child(root, ops, k if k <= n_total else None, os.path.join(d, "status"))
-    if code != (137 if k <= n_total else 0):
-        return {"cid": cid, "error": f"child exited {code} instead of dying at event {k}"}
-    if variant in ("t0", "thalf"):
-        rel, size0 = size0_rel
-        R.tear(root, rel, size0, variant)
+    sa, sb = os.path.join(d, "statusA"), os.path.join(d, "statusB")
+    bops = [{"e": "Store", "m": other, "n": "c" + other, "d": "dF"}]
+    pb = R.spawn_child(root, bops, None, sb, wait_for=sa)
+    pa = R.spawn_child(root, ops, k, sa)
+    code, recs = R.reap_child(pa, sa)
+    codeb, recsb = R.reap_child(pb, sb, timeout=600)
+    if code not in (137, 0):
+        return {"error": f"first writer exited {code}"}
     pre = [r["ev"] for r in recs if r.get("ph") == "e"]
     began = max((r["i"] for r in recs if r.get("ph") == "b"), default=0)
-    return {"cid": cid, "dir": d, "pre": pre, "began": began, "digest": R.tree_digest(root), "sem": _sem_digest(root)}
+    # the second writer changes which files exist, so event k need not be the one of the dry run: trust the child's own record
+    if code == 137 and began >= 1 and len(pre) <= began:
+        op = ops[began - 1]
+        crash = {"k": k, "variant": "kill", "op_index": began, "op": op["e"], "m": op.get("m", "none"), "n": op.get("n", "none"),
+                 "before": "unknown", "after": "unknown", "mid": False, "window": "Concurrent",
+                 "restore": op["e"] == "Store" and op.get("m") in {o["m"] for o in ops[: began - 1] if o["e"] == "Store"}}
+    elif code == 137:
+        crash = dict(NO_CRASH, variant="kill", k=k, op="Open", window="Concurrent")
+    else:
+        crash = dict(NO_CRASH, k=k)
+    head = _trace_events(ops, crash if code == 137 else None, pre, [])
+    bev = [r["ev"] for r in recsb if r.get("ph") == "e"]
+    if codeb == -9 or len(bev) < 2:
+        bev = bev[:1] + [dict(bops[0], out="error:Timeout" if codeb == -9 else f"error:Exit{codeb}", troublesome=False)]
+    for e in bev:
+        e["phase"] = "concurrent"
+    head += bev
+    crashed = crash["m"] if crash["op"] == "Store" else None
+    fu = [o for o in fu if o.get("m") != crashed]
+    case = {"kind": "concurrent", "schedule": {"pause": "none", "second_writer": other}, "workload": ops, "crash": crash,
+            "followups": [o["m"] for o in fu if o["e"] == "Store"]}
+    return _prepared(d, case, head, _names_of(ops + bops), fu, crashed)
+
+
+def _job_enact(arg):
+    """a single-process design counterexample: segments of operations each ending in a crash, then follow-up operations"""
+    base, idx, inv, letter, segs, crashes = arg
+    d = os.path.join(base, f"e{idx}")
+    os.makedirs(d)
+    root = os.path.join(d, "root")
+    head, done_ops, crash, notes = [], [], dict(NO_CRASH), []
+    for si, cr in enumerate(crashes):
+        ops = segs[si]
+        # where is the step of the counterexample in the real operation?  dry run on a copy of the surviving tree
+        dd = os.path.join(d, f"dry{si}")
+        os.makedirs(dd)
+        if os.path.isdir(root):
+            R.copy_tree(root, os.path.join(dd, "root"))
+        dry = _run_dry(os.path.join(dd, "root"), ops, os.path.join(dd, "status"))
+        shutil.rmtree(dd, ignore_errors=True)
+        if "error" in dry:
+            return {"error": dry["error"]}
+        a, b = dry["bounds"][cr["op_index"]]
+        ks = [k for k in range(a + 1, b + 1) if dry["labels"][k - 1] == cr["before"]]
+        if not ks:
+            return {"skip": f"the counterexample of {inv} crashes before {cr['before']}, a step the real operation does not perform"}
+        k, variant = ks[0], "kill"
+        if cr["fate"] in ("thalf", "t0", "complete") and dry["events"][k - 1][0] == "close":
+            k, variant = k + 1, (cr["fate"] if cr["fate"] != "complete" else "kill")
+        pre, err = _kill_at(root, ops, k, variant, len(dry["events"]), os.path.join(d, f"status{si}"), dry["events"])
+        if err:
+            return {"error": err}
+        crash = _crash_info(ops, dry, k, variant)
+        head += _trace_events(ops, crash, pre, [])
+        done_ops += ops
+    rest = segs[len(crashes)]
+    if not crashes:
+        # no crash: the operations run in a child, then the observation
+        code, recs = R.run_child(root, rest, None, os.path.join(d, "status"))
+        head += _trace_events(rest, None, [r["ev"] for r in recs if r.get("ph") == "e"], [])
+        done_ops, rest = rest, []
+    crashed = crash["m"] if crash["op"] == "Store" else None
+    case = {"kind": "design", "invariant": inv, "workload": done_ops, "crash": crash, "followups": rest, "segments": len(crashes)}
+    out = _prepared(d, case, head, _names_of(done_ops + rest), rest, crashed)
+    out["predicted"] = letter
+    return out
+
+
+def _job_pair(arg):
+    """a two-process design counterexample without crash: process B is held BEFORE the step `pause` while A runs to its end"""
+    base, idx, inv, letter, opsA, opsB, pause = arg
+    d = os.path.join(base, f"p{idx}")
+    os.makedirs(d)
+    root = os.path.join(d, "root")
+    sa, sb = os.path.join(d, "statusA"), os.path.join(d, "statusB")
+    marks = {"label": pause, "paused": os.path.join(d, "paused"), "go": os.path.join(d, "go")}
+    pb = R.spawn_child(root, opsB, None, sb, pause=marks)
+    t0 = time.time()
+    while not os.path.exists(marks["paused"]) and time.time() - t0 < 300:
+        r, _ = os.waitpid(pb, os.WNOHANG)
+        if r != 0:
+            pb = None
+            break
+        time.sleep(0.02)
+    held = os.path.exists(marks["paused"])
+    code, recsa = R.run_child(root, opsA, None, sa)
+    open(marks["go"], "w").close()
+    recsb = R.reap_child(pb, sb, timeout=600)[1] if pb is not None else R.read_status(sb)
+    if not held:
+        shutil.rmtree(d, ignore_errors=True)
+        return {"skip": f"the second process never reached the step {pause} of the counterexample of {inv}"}
+    recs = sorted([r for r in recsa + recsb if r.get("ph") == "e"], key=lambda r: r["t"])  # order of completion
+    head = []
+    for r in recs:
+        e = dict(r["ev"])
+        e["phase"] = "pre"
+        if e["e"] == "Store":
+            e.setdefault("troublesome", False)
+        head.append(e)
+    case = {"kind": "concurrent", "invariant": inv, "schedule": {"pause": pause, "held": opsB, "second_writer": "none"},
+            "workload": opsA, "crash": dict(NO_CRASH), "followups": []}
+    out = _prepared(d, case, head, _names_of(opsA + opsB), [], None)
+    out["predicted"] = letter
+    return out
+
+
+def _pair_plan(scen):
+    """A = the process whose last step comes first; B is held before its first step after A's last one"""
+    order = scen["order"]
+    lastpos = {p: max(i for i, x in enumerate(order) if x[0] == p) for p in range(scen["nproc"]) if any(x[0] == p for x in order)}
+    if len(lastpos) < 2:
+        return None
+    a = min(lastpos, key=lambda p: lastpos[p])
+    b = [p for p in lastpos if p != a][0]
+    nxt = [x for x in order[lastpos[a] + 1:] if x[0] == b and x[1] not in SILENT]
+    if not nxt:
+        return None
+    return scen["segs"][a][0], scen["segs"][b][0], nxt[0][1]
 
 
 def _sem_digest(root):
@@ -552,7 +675,8 @@ def _report(traces, bads_per_trace, v: core.Verdict, counts):
                 ms = sorted({x[0] for x in bad["exp"]})
                 target = ms[-1] if ms else None
             nm = ev.get("n")
-            stored_as = {o["m"] for o in case.get("workload", []) if o["e"] == "Store" and o.get("n") == nm} if isinstance(nm, str) else set()
+            all_ops = list(case.get("workload", [])) + list(case.get("schedule", {}).get("held", []) or [])
+            stored_as = {o["m"] for o in all_ops if o["e"] == "Store" and o.get("n") == nm} if isinstance(nm, str) else set()
             fu = {"op": ev["e"], "phase": ev.get("phase"), "m": target or "none", "n": ev.get("n", "none") if not isinstance(ev.get("n"), list) else "text",
                   "name_rebound": len(stored_as) > 1,
                   "is_crashed_model": bool(crashed and target == crashed),
@@ -616,6 +740,16 @@ def _ops_of_case(c):
     return [_op_from_spec(x["op"]) for x in c["hist"][1:]]
 
 
+def _design_entry(inv, letter, res, scen, what):
+    core.require_ok(res, f"ModelDB.tla {what} {inv}")
+    if res.violated and res.violated != inv:
+        raise core.MachineryError(f"{what} {inv}: unexpected violation of {res.violated}")
+    e = {"invariant": inv, "property": letter, "violated": bool(res.violated), "states": res.distinct, "wall_s": round(res.wall, 1)}
+    if res.violated and scen and "error" not in scen:
+        e["scenario"] = {"operations": scen["segs"], "crashes": scen["crashes"], "trace_length": scen["length"]}
+    return e
+
+
 def main(tier: str, seed: int) -> int:
     t_start = time.time()
     T = TIERS[tier]
@@ -623,22 +757,20 @@ def main(tier: str, seed: int) -> int:
     v.assumptions = [
         "crash model = process death (os._exit from an audit hook, before the k-th audited file-system operation) with a torn final write "
         "(file closed last truncated to nothing / half of what was written); no power-loss reordering, no fsync semantics",
-        "one writer process at a time (the exclusion of concurrent processes is C15's subject)",
+        "quick: one process at a time; thorough: also a second writer process (real fcntl locks; their exclusion itself is C15's subject) "
+        "and two-process design counterexamples re-enacted by holding one process at a named step",
         "models: pheno_real (m1), m1 with another initial estimate (m2, same dataset), m1 with one changed data value (m3, other dataset, same columns)",
     ]
     rng = random.Random(seed)
     sc = core.scratch("c16")
     counts = {"unspecified": 0, "new": 0, "known": 0, "dup": 0}
     try:
-        # ---- TLC: design exhaustive (background), emit workloads, property-layer runs, texts
+        # ---- TLC: design exhaustive (background), emit workloads, texts
         w_design = _bg(_run_design, _cfg("ModelDB.cfg", sc, "design.cfg", T["design"], HOLDING), 8 if tier == "quick" else 16)
         w_emit = _bg(_run_emit, _cfg("ModelDBEmit.cfg", sc, "emit.cfg", T["emit"], ["TypeOK", "EmitCase"]))
         tcfg = sc / "text.cfg"
         tcfg.write_text((SPEC / "ModelDBText.cfg").read_text().replace("MaxLen = 2", f"MaxLen = {T['text_len']}"))
         w_text = _bg(_run_text, tcfg)
-        w_fixed = None
-        if T.get("fixed"):
-            w_fixed = _bg(_run_design, _cfg("ModelDBFixed.cfg", sc, "fixed.cfg", T["fixed"], FIXED_HOLDING), 8)
 
         core.use_repo()
         import pharmpy.modeling  # noqa: F401
@@ -654,11 +786,21 @@ def main(tier: str, seed: int) -> int:
             raise core.MachineryError("ModelDB.tla emitted too few workloads")
         core.tlc_stats_into(v, emit)
         # property-layer runs start now (they overlap with the dry runs / crash injection)
+        nw = 2 if tier == "quick" else 4
         w_props = []
         for inv, letter in PROP_INVARIANTS:
             cfgp = _cfg("ModelDB.cfg", sc, f"prop_{inv}.cfg", T["props"], [inv])
             cfgp2 = _cfg("ModelDB.cfg", sc, f"prop2_{inv}.cfg", T["props2"], [inv]) if T.get("props2") else None
-            w_props.append((inv, letter, _bg(_run_prop, cfgp, sc / f"trace_{inv}.json", 2 if tier == "quick" else 4, cfgp2)))
+            w_props.append((inv, letter, _bg(_run_prop, cfgp, sc / f"trace_{inv}.json", nw, cfgp2)))
+        w_legacy, w_two, w_twoprops = [], None, []
+        if T.get("legacy"):
+            w_legacy.append(("holding", "-", _bg(_run_prop, _cfg("ModelDBLegacy.cfg", sc, "legacy.cfg", T["legacy"], LEGACY_HOLDING), sc / "trace_legacy.json", nw)))
+            for inv, letter in LEGACY_INVARIANTS:
+                w_legacy.append((inv, letter, _bg(_run_prop, _cfg("ModelDBLegacy.cfg", sc, f"legacy_{inv}.cfg", T["legacy"], [inv]), sc / f"trace_legacy_{inv}.json", nw)))
+        if T.get("two"):
+            w_two = _bg(_run_design, _cfg("ModelDB2P.cfg", sc, "two.cfg", T["two"], TWO_HOLDING), 8)
+            for inv, letter in TWO_INVARIANTS:
+                w_twoprops.append((inv, letter, _bg(_run_prop, _cfg("ModelDB2P.cfg", sc, f"two_{inv}.cfg", T["two"], [inv]), sc / f"trace_two_{inv}.json", nw)))
 
         chosen, nsig = _select_workloads(cases, tier, rng, T["extra_workloads"])
         workloads = [_ops_of_case(c) for c in chosen]
@@ -679,7 +821,7 @@ def main(tier: str, seed: int) -> int:
                 real_out = dry["evs"][i]["out"]
                 if real == spec and real_out == h["out"]:
                     conf_ok += 1
-                elif len(drift) < 10:
+                else:
                     drift.append({"op": h["op"], "spec": spec, "real": real, "spec_out": h["out"], "real_out": real_out})
         if drift:
             v.notes.append(f"drift: {len(drift)} operation(s) whose audited file-system sequence differs from ModelDB.tla, first: {json.dumps(drift[0])[:500]}")
@@ -692,138 +834,107 @@ def main(tier: str, seed: int) -> int:
             lo = 1 if wid == 0 else a + 1
             for k in range(lo, b + 2):  # b+1 = after the last event of the operation (only useful for torn variants)
                 if k <= b:
-                    points.append((wid, k, "kill", None))
+                    points.append((wid, k, "kill"))
                 prev = dry["events"][k - 2] if k >= 2 else None
                 if prev is not None and prev[0] == "close" and k - 1 > (0 if wid == 0 else a):
-                    for var in ("t0", "thalf"):
-                        points.append((wid, k, var, (prev[1], prev[2])))
-            assert n >= b
-            points.append((wid, n + 1, "none", None))  # the workload runs to its end: happy-path observation
+                    points.append((wid, k, "t0"))
+                    points.append((wid, k, "thalf"))
+            points.append((wid, n + 1, "none"))  # the workload runs to its end: happy-path observation
         total_points = len(points)
-        # design-level counterexamples re-enacted on the real code
-        scen_runs = []
-        design_findings = []
-        for inv, letter, wait in w_props:
-            res, scen = wait()
-            core.require_ok(res, f"ModelDB.tla property run {inv}")
-            entry = {"invariant": inv, "property": letter, "violated": bool(res.violated), "states": res.distinct, "wall_s": round(res.wall, 1)}
-            if res.violated and res.violated != inv:
-                raise core.MachineryError(f"property run {inv}: unexpected violation of {res.violated}")
-            if res.violated and scen and "error" not in scen:
-                entry["scenario"] = {"ops": scen["ops"], "crash": scen["crash"], "crashes": scen["crashes"], "trace_length": scen["length"]}
-                simple = scen["crashes"] == 0 or (scen["crashes"] == 1 and not (scen["crash"]["in"] == "Open" and scen["crash"]["op_index"] > 0))
-                if simple:
-                    scen_runs.append((inv, letter, scen))
-                else:
-                    entry["reproduced_on_real_code"] = "not re-enacted (more than one crash in the counterexample)"
-            design_findings.append(entry)
-            v.add_coverage(states=res.distinct, transitions=res.generated)
-
-        inj_args = [(base, cid, workloads[wid], k, var, sz, len(dries[wid]["events"])) for cid, (wid, k, var, sz) in enumerate(points)]
-        t0 = time.time()
-        injected = core.pmap(_inject, inj_args, procs=16, chunk=2)
-        t_inject = time.time() - t0
-        bad = [x for x in injected if "error" in x]
-        if bad:
-            raise core.MachineryError(f"crash injection failed: {bad[0]['error']}")
-
-        # scenario runs: crash inside an EARLIER operation of the counterexample, remaining operations are the follow-ups
-        scen_jobs = []
-        for inv, letter, scen in scen_runs:
-            ops = scen["ops"]
-            cr = scen["crash"]
-            if cr is None:
-                scen_jobs.append((inv, letter, ops, None, None, []))
-                continue
-            prefix = ops[: cr["op_index"]]
-            scen_jobs.append((inv, letter, prefix, cr, ops[cr["op_index"]:], None))
-        sdries = core.pmap(_dry, [(base, 1000 + i, j[2]) for i, j in enumerate(scen_jobs)], procs=16)
-        sinj = []
-        for i, (job, dry) in enumerate(zip(scen_jobs, sdries)):
-            inv, letter, prefix, cr, rest, _ = job
-            if "error" in dry:
-                raise core.MachineryError(f"scenario dry run failed: {dry}")
-            if cr is None:
-                sinj.append(None)
-                continue
-            a, b = dry["bounds"][cr["op_index"]]
-            ks = [k for k in range(a + 1, b + 1) if dry["labels"][k - 1] == cr["before"]]
-            if not ks:
-                v.notes.append(f"drift: design counterexample of {inv} crashes before {cr['before']}, a step the real operation does not perform")
-                sinj.append(None)
-                continue
-            sinj.append((base, 2000 + i, prefix, ks[0], "kill", None, len(dry["events"])))
-        sres = core.pmap(_inject, [x for x in sinj if x is not None], procs=16)
-        sres_it = iter(sres)
-
-        # ---- observations (deduplicated by post-crash tree; above the tier budget: sampled by seed, one of each kind first)
-        obs_jobs, job_of, traces = [], {}, []
-        dkey = "sem" if T["sem_dedupe"] else "digest"
-        cand, groups = [], {}
-        for (wid, k, var, sz), inj in zip(points, injected):
+        jobs = []
+        for cid, (wid, k, var) in enumerate(points):
             ops, dry = workloads[wid], dries[wid]
-            if var == "none":
-                crash = {"k": k, "variant": "none", "op_index": len(ops) + 1, "op": "none", "m": "none", "n": "none", "before": "End",
-                         "after": "End", "mid": False, "window": "none", "restore": False}
-            else:
-                crash = _crash_info(ops, dry, k, var)
+            crash = dict(NO_CRASH, k=k, op_index=len(ops) + 1) if var == "none" else _crash_info(ops, dry, k, var)
             # the order of the follow-up stores (sharing model first / other dataset first) varies with seed, workload, window
             fu, crashed = _followups(ops, crash, random.Random(f"{seed}/{wid}/{crash['window']}/{crash['variant']}"))
-            key = (wid, inj[dkey], json.dumps(fu), crashed, crash["op_index"])
-            cand.append((key, wid, crash, fu, crashed, inj))
-            groups.setdefault(key, []).append(len(cand) - 1)
+            small = {"events": dry["events"]}
+            jobs.append((_job_crash, (base, cid, ops, k, var, small, crash, fu, crashed)))
+        # a second writer process while the first one is killed (thorough)
+        n_conc = 0
+        if T["conc"]:
+            kills = [(wid, k) for wid, k, var in points if var == "kill" and k > dries[wid]["bounds"][0][1]]  # after Open
+            rng.shuffle(kills)
+            for cid, (wid, k) in enumerate(kills[: T["conc"]]):
+                ops = workloads[wid]
+                crash = _crash_info(ops, dries[wid], k, "kill")
+                others = [m for m in ("m1", "m2", "m3") if m != crash["m"]]
+                fu, _ = _followups(ops, crash, random.Random(f"{seed}/c/{wid}/{k}"))
+                jobs.append((_job_conc, (base, cid, ops, k, {"events": dries[wid]["events"]}, fu, rng.choice(others))))
+                n_conc += 1
+
+        # design-level counterexamples: re-enacted on the real code
+        design_findings, legacy_findings, two_findings = [], [], []
+        n_enact = 0
+        for inv, letter, wait in w_props:
+            res, scen = wait()
+            e = _design_entry(inv, letter, res, scen, "property run")
+            if "scenario" in e:
+                jobs.append((_job_enact, (base, n_enact, inv, letter, scen["segs"][0], scen["crashes"][0])))
+                n_enact += 1
+            design_findings.append(e)
+            v.add_coverage(states=res.distinct, transitions=res.generated)
+        for inv, letter, wait in w_twoprops:
+            res, scen = wait()
+            e = _design_entry(inv, letter, res, scen, "two-process property run")
+            e["processes"] = 2
+            if "scenario" in e:
+                plan = _pair_plan(scen) if scen["ncrash"] == 0 else None
+                if plan is None:
+                    e["reproduced_on_real_code"] = "not re-enacted (needs a crash inside a two-process schedule)"
+                else:
+                    e["schedule"] = {"runs_first_until": plan[2], "held": plan[1], "other": plan[0]}
+                    jobs.append((_job_pair, (base, len(two_findings), inv, letter, plan[0], plan[1], plan[2])))
+            two_findings.append(e)
+            v.add_coverage(states=res.distinct, transitions=res.generated)
+
+        t0 = time.time()
+        prepared = core.pmap(_run_job, jobs, procs=16, chunk=2)
+        t_inject = time.time() - t0
+        bad = [x for x in prepared if "error" in x]
+        if bad:
+            raise core.MachineryError(f"crash injection failed: {bad[0]['error']}")
+        for x in prepared:
+            if "skip" in x:
+                v.notes.append("drift: " + x["skip"])
+        prepared = [x for x in prepared if "skip" not in x]
+
+        # ---- observations (deduplicated by post-crash tree; above the tier budget: sampled by seed, one of each kind first)
+        dkey = "sem" if T["sem_dedupe"] else "digest"
+        groups = {}
+        for i, x in enumerate(prepared):
+            key = (json.dumps(x["case"].get("workload")), x[dkey], json.dumps(x["followups"]), x["crashed"], json.dumps(x["names"]))
+            x["key"] = key
+            groups.setdefault(key, []).append(i)
         keys = list(groups)
+        states_total = len(keys)
+        must = {prepared[i]["key"] for i in range(len(prepared)) if prepared[i]["case"]["kind"] != "crash"}
         if len(keys) > T["budget"]:
             random.Random(seed + 17).shuffle(keys)
             seen, first, later = set(), [], []
             for key in keys:
-                c = cand[groups[key][0]][2]
+                c = prepared[groups[key][0]]["case"]["crash"]
                 kind = (c["op"], c["before"], c["variant"], c["restore"], c["window"])
-                (later if kind in seen else first).append(key)
+                (later if kind in seen and key not in must else first).append(key)
                 seen.add(kind)
             keys = (first + later)[: max(T["budget"], len(first))]
-        keep = set(keys)
-        for key, wid, crash, fu, crashed, inj in cand:
-            ops = workloads[wid]
-            if key not in keep:
-                shutil.rmtree(inj["dir"], ignore_errors=True)
+        keep = {k: n for n, k in enumerate(keys)}
+        obs_jobs = [None] * len(keys)
+        traces = []
+        for x in prepared:
+            n = keep.get(x["key"])
+            if n is None or obs_jobs[n] is not None:
+                shutil.rmtree(x["dir"], ignore_errors=True)
+            if n is None:
                 continue
-            if key in job_of:
-                shutil.rmtree(inj["dir"], ignore_errors=True)
-            else:
-                job_of[key] = len(obs_jobs)
-                obs_jobs.append((inj["dir"], _names_of(ops), fu, crashed, False))
-            traces.append({"case": {"kind": "crash", "workload": ops, "crash": crash, "followups": [o["m"] for o in fu if o["e"] == "Store"]},
-                           "pre": inj["pre"], "job": job_of[key], "ops": ops})
-        states_total = len(groups)
-        n_crash_traces = len(traces)
-        for i, (job, dry, sj) in enumerate(zip(scen_jobs, sdries, sinj)):
-            inv, letter, prefix, cr, rest, _ = job
-            if cr is None:
-                # no crash in the counterexample: run the operations, then look
-                d = os.path.join(base, f"s{i}")
-                os.makedirs(d)
-                code, recs = R.run_child(os.path.join(d, "root"), prefix, None, os.path.join(d, "status"))
-                pre = [r["ev"] for r in recs if r.get("ph") == "e"]
-                obs_jobs.append((d, _names_of(prefix), [], None, False))
-                traces.append({"case": {"kind": "design", "invariant": inv, "workload": prefix, "crash": {"variant": "none", "window": "none", "op": "none", "m": "none", "restore": False}},
-                               "pre": pre, "job": len(obs_jobs) - 1, "ops": prefix, "predicted": letter})
-                continue
-            if sj is None:
-                continue
-            inj = next(sres_it)
-            if "error" in inj:
-                raise core.MachineryError(f"scenario crash injection failed: {inj['error']}")
-            crash = _crash_info(prefix, dry, sj[3], "kill")
-            obs_jobs.append((inj["dir"], _names_of(prefix + rest), rest, crash["m"] if crash["op"] == "Store" else None, False))
-            traces.append({"case": {"kind": "design", "invariant": inv, "workload": prefix, "crash": crash, "followups": rest},
-                           "pre": inj["pre"], "job": len(obs_jobs) - 1, "ops": prefix, "predicted": letter})
-
+            if obs_jobs[n] is None:
+                obs_jobs[n] = (x["dir"], x["names"], x["followups"], x["crashed"], False)
+            traces.append({"case": x["case"], "head": x["head"], "job": n, "predicted": x.get("predicted")})
         t0 = time.time()
         obs = core.pmap(_observe, obs_jobs, procs=16, chunk=1)
         t_observe = time.time() - t0
         for t in traces:
-            t["events"] = _trace_events(t["ops"], t["case"]["crash"] if t["case"]["crash"].get("variant") != "none" else None, t["pre"], [dict(e) for e in obs[t["job"]][0]])
+            t["events"] = t["head"] + [dict(e) for e in obs[t["job"]][0]]
+        n_crash_traces = len(traces)
 
         # ---- (c) fidelity over inputs
         text = w_text()
@@ -863,14 +974,31 @@ def main(tier: str, seed: int) -> int:
 
         # design findings: reproduced on the real code?
         for t, b in zip(traces, bads):
-            if t["case"]["kind"] == "design":
+            if t.get("predicted"):
                 got = sorted({x["p"] for x in b if x["p"] != "U"})
-                for e in design_findings:
-                    if e["invariant"] == t["case"]["invariant"]:
+                for e in design_findings + two_findings:
+                    if e["invariant"] == t["case"]["invariant"] and ("processes" in e) == (t["case"]["kind"] == "concurrent"):
                         e["real_code_letters"] = got
                         e["reproduced_on_real_code"] = t["predicted"] in got
                         if not e["reproduced_on_real_code"]:
                             v.notes.append(f"drift: the design-level counterexample of {e['invariant']} does not show on the real code (observed letters {got})")
+
+        for inv, letter, wait in w_legacy:
+            res, scen = wait()
+            core.require_ok(res, f"ModelDB.tla legacy run {inv}")
+            if inv == "holding":
+                if res.violated:
+                    raise core.MachineryError(f"ModelDB.tla (legacy protocol): {res.violated} violated")
+            else:
+                legacy_findings.append(_design_entry(inv, letter, res, scen, "legacy run"))
+            v.add_coverage(states=res.distinct, transitions=res.generated)
+        if w_two is not None:
+            two = w_two()
+            core.require_ok(two, "ModelDB.tla (two processes)")
+            if two.violated:
+                raise core.MachineryError(f"ModelDB.tla (two processes): invariant {two.violated} violated:\n" + "\n".join(two.trace[-1:])[:1500])
+            v.add_coverage(states=two.distinct, transitions=two.generated,
+                           two_process_design={"constants": T["two"], "states": two.distinct, "invariants_holding": TWO_HOLDING, "findings": two_findings})
 
         design = w_design()
         core.require_ok(design, "ModelDB.tla (design, exhaustive)")
@@ -879,26 +1007,20 @@ def main(tier: str, seed: int) -> int:
         core.require_actions(design, ACTIONS, "ModelDB.tla")
         core.tlc_stats_into(v, design)
 
-        if w_fixed is not None:
-            fixed = w_fixed()
-            core.require_ok(fixed, "ModelDB.tla (repaired protocol)")
-            v.add_coverage(states=fixed.distinct, transitions=fixed.generated,
-                           repaired_protocol={"fix": ["IndexLast", "AtomicAnn", "LogHeader"], "invariants": FIXED_HOLDING, "constants": T["fixed"],
-                                              "states": fixed.distinct, "holds": fixed.violated is None, "violated": fixed.violated})
-            if fixed.violated:
-                v.notes.append(f"design: the repaired protocol violates {fixed.violated} (proposed fix is incomplete)")
-        nontrivial = sum(1 for t in traces[:n_crash_traces] if t["case"]["crash"]["window"] not in ("Open", "Begin", "Read", "End"))
+        crash_traces = [t for t in traces[:n_crash_traces] if t["case"]["kind"] == "crash"]
+        nontrivial = sum(1 for t in crash_traces if t["case"]["crash"]["window"] not in ("Open", "Begin", "Read", "none"))
         sample = []
-        for t in traces[:n_crash_traces][:: max(1, n_crash_traces // 4)][:4]:
+        for t in crash_traces[:: max(1, len(crash_traces) // 4)][:4]:
             sample.append({"workload": t["case"]["workload"], "crash": t["case"]["crash"], "events": [{k: e[k] for k in ("e", "m", "n", "out") if k in e} for e in t["events"]][:14]})
         v.add_coverage(
             design_states=design.distinct, design_transitions=design.generated, design_depth=design.depth, design_wall_s=round(design.wall, 1),
             design_constants=T["design"], design_invariants_holding=HOLDING,
-            design_findings=design_findings,
+            design_findings=design_findings, legacy_protocol_findings=legacy_findings,
             workloads_emitted_by_tlc=len(cases), workload_signatures=nsig, workloads_run=len(workloads),
             conformance_ops_equal=conf_ok, conformance_ops_drift=len(drift),
-            crash_points_total=total_points, crash_points_injected=len(points), distinct_post_crash_states=states_total,
-            distinct_post_crash_states_observed=len(obs_jobs), dedupe="semantic (lock files, empty directories ignored)" if T["sem_dedupe"] else "exact tree digest",
+            crash_points_total=total_points, second_writer_runs=n_conc, design_counterexamples_reenacted=n_enact,
+            distinct_post_crash_states=states_total, distinct_post_crash_states_observed=len(obs_jobs),
+            dedupe="semantic (lock files, empty directories ignored)" if T["sem_dedupe"] else "exact tree digest",
             evaluations=len(traces), distinct_nontrivial=nontrivial,
             traces_validated_against_impl=len(traces),
             fidelity_cases=len(fsel), fidelity_texts_enumerated=len(texts), texts_unspecified=unspecified_texts,
@@ -909,7 +1031,7 @@ def main(tier: str, seed: int) -> int:
                  "file-system operation of that operation is a crash point (plus torn variants after each close); non-trivial = crash inside the "
                  "dataset / model file / results / commit / name+annotation / log windows; sampled by VERIF_SEED above the tier budget",
             samples=sample,
-            exhaustive=len(keep) >= states_total,
+            exhaustive=len(keys) >= states_total,
         )
     finally:
         shutil.rmtree(sc, ignore_errors=True)
@@ -917,8 +1039,13 @@ def main(tier: str, seed: int) -> int:
     return v.finish(min_traces=40 if tier == "quick" else 400)
 
 
+def _run_job(job):
+    fn, arg = job
+    return fn(arg)
+
+
 def replay(path: str) -> int:
-    """re-run the crash point / fidelity case of a replay file on the real code and print the observation trace"""
+    """re-run the crash point / scenario / fidelity case of a replay file on the real code and print the observation trace"""
     core.use_repo()
     import pharmpy.modeling  # noqa: F401
     import pharmpy.workflows  # noqa: F401
@@ -930,31 +1057,33 @@ def replay(path: str) -> int:
     sc = core.scratch("c16rp")
     v = core.Verdict(PROP, "replay", 0)
     try:
-        if case["kind"].startswith("fidelity"):
-            c = {"kind": case["kind"].split(".")[1], "text": case["text"], "variant": case["variant"]}
-            evs = _fidelity((str(sc), 0, c))
-            traces = [{"case": case, "events": evs}]
+        kind = case["kind"]
+        if kind.startswith("fidelity"):
+            c = {"kind": kind.split(".")[1], "text": case["text"], "variant": case["variant"]}
+            traces = [{"case": case, "events": _fidelity((str(sc), 0, c))}]
         else:
-            ops = case["workload"]
-            dry = _dry((str(sc), 0, ops))
-            crash = case["crash"]
-            if crash.get("variant", "none") == "none":
-                d = os.path.join(str(sc), "s")
-                os.makedirs(d)
-                code, recs = R.run_child(os.path.join(d, "root"), ops, None, os.path.join(d, "status"))
-                pre = [r["ev"] for r in recs if r.get("ph") == "e"]
-                obs, _ = _observe((d, _names_of(ops), [], None, False))
-                evs = _trace_events(ops, None, pre, obs)
+            ops, crash = case["workload"], case["crash"]
+            fus = case.get("followups", [])
+            fu = ([{"e": "Store", "m": m, "n": "f" + m, "d": "dF"} for m in fus] + [{"e": "Log", "g": "gF"}]) if fus and isinstance(fus[0], str) else fus
+            if kind == "concurrent" and case["schedule"]["pause"] != "none":
+                x = _job_pair((str(sc), 0, case.get("invariant", "-"), "-", ops, case["schedule"]["held"], case["schedule"]["pause"]))
+            elif kind == "concurrent":
+                dry = _dry((str(sc), 0, ops))
+                x = _job_conc((str(sc), 0, ops, crash["k"], {"events": dry["events"]}, fu, case["schedule"]["second_writer"]))
+            elif kind == "design" and case.get("segments", 0) > 1:
+                print("a counterexample with several crashes is re-enacted from the TLC trace only: run the check")
+                return 2
             else:
-                k, var = crash["k"], crash["variant"]
-                prev = dry["events"][k - 2] if k >= 2 else None
-                inj = _inject((str(sc), 1, ops, k, var, (prev[1], prev[2]) if var != "kill" else None, len(dry["events"])))
-                fus = case.get("followups", [])
-                fu = [{"e": "Store", "m": m, "n": "f" + m, "d": "dF"} for m in fus] + [{"e": "Log", "g": "gF"}] if fus and isinstance(fus[0], str) else fus
+                dry = _dry((str(sc), 0, ops))
+                var = crash.get("variant", "none")
+                k = crash.get("k", len(dry["events"]) + 1) if var != "none" else len(dry["events"]) + 1
                 crashed = crash["m"] if crash["op"] == "Store" else None
-                obs, _ = _observe((inj["dir"], _names_of(ops + [o for o in fu if o["e"] == "Store" and not o["n"].startswith("f")]), fu, crashed, False))
-                evs = _trace_events(ops, crash, inj["pre"], obs)
-            traces = [{"case": case, "events": evs}]
+                x = _job_crash((str(sc), 0, ops, k, var, {"events": dry["events"]}, crash, fu, crashed))
+            if "error" in x or "skip" in x:
+                print(x)
+                return 2
+            obs, _ = _observe((x["dir"], x["names"], x["followups"], x["crashed"], False))
+            traces = [{"case": case, "events": x["head"] + obs}]
         bads = _validate(traces, v)
         for e in traces[0]["events"]:
             print("  ", json.dumps({k: e[k] for k in e if k not in ("troublesome",)})[:300])
